@@ -37,6 +37,37 @@ KERNELS = [
     ('MutexEvent_Set', 'src/util/mutex_event.cpp', None, 'yaclib::detail::MutexEvent', 'mutex_event.cpp', 'Set', 0),
     ('MutexEvent_Wait', 'src/util/mutex_event.cpp', None, 'yaclib::detail::MutexEvent', 'mutex_event.cpp', 'Wait', 0),
     ('CallCallback_Impl', None, ['yaclib/algo/detail/wait_event.hpp'], 'yaclib::detail::CallCallback', 'wait_event.hpp', 'Impl', 'template'),
+    # ---- Wait / WaitFor / WaitUntil (C11), counters shared with C16
+    ('WaitIterator', None, ['yaclib/async/wait.hpp'], 'yaclib::detail::WaitIterator', 'wait_impl.hpp', 'WaitIterator', 'template'),
+    ('OneCounter_Sub', None, ['yaclib/util/detail/unique_counter.hpp'], 'yaclib::detail::OneCounter', 'unique_counter.hpp', 'Sub', 0),
+    ('OneCounter_SubEqual', None, ['yaclib/util/detail/unique_counter.hpp'], 'yaclib::detail::OneCounter', 'unique_counter.hpp', 'SubEqual', 0),
+    ('SetDeleter_Delete', None, ['yaclib/util/detail/set_deleter.hpp'], 'yaclib::detail::SetDeleter', 'set_deleter.hpp', 'Delete', 'template'),
+    ('MutexEvent_Make', 'src/util/mutex_event.cpp', None, 'yaclib::detail::MutexEvent', 'mutex_event.cpp', 'Make', 0),
+    ('MutexEvent_WaitTimed', None, ['yaclib/util/detail/mutex_event.hpp'], 'yaclib::detail::MutexEvent', 'mutex_event.hpp', 'Wait', 'template'),
+    ('Wait_variadic_iterator', None, ['yaclib/async/wait.hpp'], 'yaclib::Wait', 'async/wait.hpp', 'Wait', 'template'),
+    ('WaitFor_variadic_iterator', None, ['yaclib/async/wait_for.hpp'], 'yaclib::WaitFor', 'async/wait_for.hpp', 'WaitFor', 'template'),
+    ('WaitUntil_variadic_iterator', None, ['yaclib/async/wait_until.hpp'], 'yaclib::WaitUntil', 'async/wait_until.hpp', 'WaitUntil', 'template'),
+    # ---- WaitGroup / OneShotEvent (C16)
+    ('OneShotEvent_SetImpl', 'src/algo/one_shot_event.cpp', None, 'SetImpl', 'one_shot_event.cpp', 'SetImpl', 0),
+    ('OneShotEvent_TryAdd', 'src/algo/one_shot_event.cpp', None, 'yaclib::OneShotEvent', 'one_shot_event.cpp', 'TryAdd', 0),
+    ('OneShotEvent_Ready', 'src/algo/one_shot_event.cpp', None, 'yaclib::OneShotEvent', 'one_shot_event.cpp', 'Ready', 0),
+    ('OneShotEvent_Wait', 'src/algo/one_shot_event.cpp', None, 'yaclib::OneShotEvent', 'one_shot_event.cpp', 'Wait', 0),
+    ('OneShotEvent_Set', 'src/algo/one_shot_event.cpp', None, 'yaclib::OneShotEvent', 'one_shot_event.cpp', 'Set', 0),
+    ('OneShotEvent_TimedWait', None, ['yaclib/algo/one_shot_event.hpp'], 'yaclib::OneShotEvent', 'one_shot_event.hpp', 'TimedWait', 'template'),
+    ('OneShotEvent_ExtendedAwaiter_Call', None, ['yaclib/algo/one_shot_event.hpp'], 'yaclib::OneShotEvent', 'one_shot_event.hpp', 'Call', 0),
+    ('OneShotEvent_Waiter_Call', None, ['yaclib/algo/one_shot_event.hpp'], 'yaclib::OneShotEvent', 'one_shot_event.hpp', 'Call', 1),
+    ('OneShotEvent_TimedWaiter_Call', None, ['yaclib/algo/one_shot_event.hpp'], 'yaclib::OneShotEvent', 'one_shot_event.hpp', 'Call', 2),
+    ('OneShotEvent_await_ready', None, ['yaclib/algo/one_shot_event.hpp'], 'yaclib::OneShotEvent', 'one_shot_event.hpp', 'await_ready', 0),
+    ('OneShotEvent_OnAwaiter_await_ready', None, ['yaclib/algo/one_shot_event.hpp'], 'yaclib::OneShotEvent', 'one_shot_event.hpp', 'await_ready', 1),
+    ('OneShotEvent_await_suspend', None, ['yaclib/algo/one_shot_event.hpp'], 'yaclib::OneShotEvent', 'one_shot_event.hpp', 'await_suspend', 'template'),
+    ('WaitGroup_Add', None, ['yaclib/algo/wait_group.hpp'], 'yaclib::WaitGroup', 'wait_group.hpp', 'Add', 0),
+    ('WaitGroup_Done', None, ['yaclib/algo/wait_group.hpp'], 'yaclib::WaitGroup', 'wait_group.hpp', 'Done', 0),
+    ('WaitGroup_Wait', None, ['yaclib/algo/wait_group.hpp'], 'yaclib::WaitGroup', 'wait_group.hpp', 'Wait', 0),
+    ('WaitGroup_WaitFor', None, ['yaclib/algo/wait_group.hpp'], 'yaclib::WaitGroup', 'wait_group.hpp', 'WaitFor', 'template'),
+    ('WaitGroup_InsertRange', None, ['yaclib/algo/wait_group.hpp'], 'yaclib::WaitGroup', 'wait_group.hpp', 'InsertRange', 'template'),
+    ('WaitGroup_InsertCore', None, ['yaclib/algo/wait_group.hpp'], 'yaclib::WaitGroup', 'wait_group.hpp', 'InsertCore', 'template'),
+    ('WaitGroup_InsertIt', None, ['yaclib/algo/wait_group.hpp'], 'yaclib::WaitGroup', 'wait_group.hpp', 'InsertIt', 'template'),
+    ('DropCallback_Impl', None, ['yaclib/algo/detail/wait_event.hpp'], 'yaclib::detail::DropCallback', 'wait_event.hpp', 'Impl', 'template'),
     # ---- strand (C07)
     ('Strand_Submit', 'src/exe/strand.cpp', None, 'yaclib::Strand', 'strand.cpp', 'Submit', 0),
     ('Strand_Call', 'src/exe/strand.cpp', None, 'yaclib::Strand', 'strand.cpp', 'Call', 0),
@@ -301,7 +332,6 @@ KERNELS = [
     ('Manual_Drain', 'src/exe/manual.cpp', None, 'yaclib::ManualExecutor', 'exe/manual.cpp', 'Drain', 0),
     ('MakeUnique', None, ['yaclib/util/helper.hpp'], 'yaclib::MakeUnique', 'util/helper.hpp', 'MakeUnique', 'template'),
     ('MakeShared', None, ['yaclib/util/helper.hpp'], 'yaclib::MakeShared', 'util/helper.hpp', 'MakeShared', 'template'),
-    ('OneCounter_Sub', None, ['yaclib/util/detail/unique_counter.hpp'], 'yaclib::detail::OneCounter', 'unique_counter.hpp', 'Sub', 0),
     # ---- shared core: callback list + reference counter (C06)
     ('SharedCore_Retire', None, ['yaclib/algo/detail/shared_core.hpp'], 'yaclib::detail::SharedCore', 'shared_core.hpp', 'Retire', 0),
     ('SharedCore_Here', None, ['yaclib/algo/detail/shared_core.hpp'], 'yaclib::detail::SharedCore', 'shared_core.hpp', 'Here', 0),
@@ -395,6 +425,16 @@ def generate(repo, cfg_include, workdir, kernels=KERNELS):
     cache = {}
     defs = []
     problems = []
+    # the same kernel may be listed by several properties: keep the first of identical entries, report conflicting ones
+    uniq, seen_ids = [], {}
+    for k in kernels:
+        if k[0] in seen_ids:
+            if seen_ids[k[0]] != k:
+                problems.append('%s: listed twice with different definitions' % k[0])
+            continue
+        seen_ids[k[0]] = k
+        uniq.append(k)
+    kernels = uniq
     # one clang run per distinct (TU, filter): do them in parallel; a failing run is retried (and reported) below
     from concurrent.futures import ThreadPoolExecutor
 
